@@ -857,15 +857,17 @@ def GoodFlag (p : Params) (rel : List Rec) (today : Int) (f : FlagEv) : Prop :=
   (∀ r ∈ f.rates, ∃ rc ∈ rel, rc.site = f.site ∧ rc.rate = r ∧ rc.date + p.rd ≤ f.day) ∧
   RouteOK p f ∧ RateOK p f.rate f.rateLong f.rates
 
-structure InvC (p : Params) (st : St) : Prop where
+/-- `S` guards the clause about the shared queue: `True` for a single screening method; with several
+methods on one follow-up method (`S = False`) the queue also holds plans of the other methods -/
+structure InvC (S : Prop) (p : Params) (st : St) : Prop where
   poolOK : ∀ pl ∈ st.m.pool, PlanOK p st.m.released st.m.today pl
-  queueOK : ∀ e ∈ st.sh.queue, PlanOK p st.m.released st.m.today e.plan
+  queueOK : S → ∀ e ∈ st.sh.queue, PlanOK p st.m.released st.m.today e.plan
   poolThr : p.stationary = false → ∀ pl ∈ st.m.pool, p.thr ≤ pl.rate
   evsOK : ∀ f ∈ st.m.evs, GoodFlag p st.m.released st.m.today f
   relOK : ∀ rc ∈ st.m.released, rc.date + p.rd ≤ st.m.today
   firstOK : ∀ fc, st.m.firstCand = some fc → fc ≤ st.m.today
 
-theorem invC_init (p : Params) : InvC p {} := by
+theorem invC_init (S : Prop) (p : Params) : InvC S p {} := by
   constructor <;> simp
 
 theorem planOK_mono {p : Params} {rel rel' : List Rec} {t t' : Int} {pl : Plan}
@@ -951,9 +953,9 @@ structure RelCtx (p : Params) (d dc : Int) (r : Rec) (st : St) : Prop where
   hdc : dc + p.rd = d
   fresh : st.sh.latestTag r.site ≤ dc
 
-theorem flagSite_invC_instant (p : Params) (d dc : Int) (st : St) (pl : Plan)
+theorem flagSite_invC_instant {S : Prop} (p : Params) (d dc : Int) (st : St) (pl : Plan)
     (hpool : ∀ x ∈ st.m.pool, PlanOK p st.m.released st.m.today x)
-    (hqueue : ∀ e ∈ st.sh.queue, PlanOK p st.m.released st.m.today e.plan)
+    (hqueue : S → ∀ e ∈ st.sh.queue, PlanOK p st.m.released st.m.today e.plan)
     (hthr : p.stationary = false → ∀ x ∈ st.m.pool, p.thr ≤ x.rate)
     (hevs : ∀ f ∈ st.m.evs, GoodFlag p st.m.released st.m.today f)
     (hrel : ∀ rc ∈ st.m.released, rc.date + p.rd ≤ st.m.today)
@@ -961,13 +963,13 @@ theorem flagSite_invC_instant (p : Params) (d dc : Int) (st : St) (pl : Plan)
     (hpl : PlanOK p st.m.released st.m.today pl) (htoday : st.m.today = d)
     (hi : geInst p pl.rate = true) (hl : pl.latest = dc) (hd : dc + p.rd = d)
     (ht : st.sh.latestTag pl.site ≤ dc) :
-    InvC p (flagSite 2 pl .instant d d st) := by
+    InvC S p (flagSite 2 pl .instant d d st) := by
   refine ⟨hpool, ?_, hthr, ?_, hrel, hfirst⟩
-  · intro e he
+  · intro hS e he
     simp only [flagSite, enqueue, mem_qInsert] at he
     rcases he with rfl | he
     · exact hpl
-    · exact hqueue e he
+    · exact hqueue hS e he
   · intro f hf
     simp only [flagSite, List.mem_append, List.mem_singleton] at hf
     rcases hf with hf | rfl
@@ -976,8 +978,8 @@ theorem flagSite_invC_instant (p : Params) (d dc : Int) (st : St) (pl : Plan)
       rw [htoday] at hpl hrel ⊢
       exact goodFlag_instant hpl hrel hi hl hd ht
 
-theorem updMobile_invC (p : Params) (d dc : Int) (r : Rec) (st : St) (h : InvC p st)
-    (c : RelCtx p d dc r st) (hmob : p.stationary = false) : InvC p (updMobile p d dc r st) := by
+theorem updMobile_invC {S : Prop} (p : Params) (d dc : Int) (r : Rec) (st : St) (h : InvC S p st)
+    (c : RelCtx p d dc r st) (hmob : p.stationary = false) : InvC S p (updMobile p d dc r st) := by
   obtain ⟨hpool, hqueue, hthr, hevs, hrel, hfirst⟩ := h
   obtain ⟨hmem, htoday, hdc, hfresh⟩ := c
   have hdle : dc + p.rd ≤ st.m.today := by omega
@@ -1026,21 +1028,20 @@ theorem updMobile_invC (p : Params) (d dc : Int) (r : Rec) (st : St) (h : InvC p
       | none => exact ⟨hpool, hqueue, hthr, hevs, hrel, hfirst⟩
       | some pl =>
         obtain ⟨e, hemem, rfl, hs⟩ := qFindLast_some hfl
-        have hpl' := planOK_upd (hqueue e hemem) hmem hs hdle
-        have hq' : ∀ (cl : Nat), ∀ x ∈ qInsert { cls := cl, plan := updPlan p e.plan r.rate dc }
+        have hq' : ∀ (cl : Nat), S → ∀ x ∈ qInsert { cls := cl, plan := updPlan p e.plan r.rate dc }
             (qRemove r.site st.sh.queue), PlanOK p st.m.released st.m.today x.plan := by
-          intro cl x hx
+          intro cl hS x hx
           rcases (mem_qInsert _ _ _).mp hx with rfl | hx
-          · exact hpl'
-          · exact hqueue x (mem_qRemove hx).1
+          · exact planOK_upd (hqueue hS e hemem) hmem hs hdle
+          · exact hqueue hS x (mem_qRemove hx).1
         simp only []
         split
         · exact ⟨hpool, by simpa [enqueue] using hq' _, hthr, hevs, hrel, hfirst⟩
         · split
           · exact ⟨hpool, by simpa [enqueue] using hq' _, hthr, hevs, hrel, hfirst⟩
           · refine ⟨hpool, ?_, hthr, hevs, hrel, hfirst⟩
-            intro x hx
-            exact hqueue x (mem_qRemove hx).1
+            intro hS x hx
+            exact hqueue hS x (mem_qRemove hx).1
     · split
       · rename_i hi
         refine flagSite_invC_instant p d dc _ _ hpool hqueue hthr hevs hrel hfirst
@@ -1061,8 +1062,8 @@ theorem updMobile_invC (p : Params) (d dc : Int) (r : Rec) (st : St) (h : InvC p
           · exact ⟨hpool, hqueue, hthr, hevs, hrel, hfirst⟩
           · exact ⟨hpool, hqueue, hthr, hevs, hrel, hfirst⟩
 
-theorem updStationary_invC (p : Params) (d dc : Int) (r : Rec) (st : St) (h : InvC p st)
-    (c : RelCtx p d dc r st) (hstat : p.stationary = true) : InvC p (updStationary p d dc r st) := by
+theorem updStationary_invC {S : Prop} (p : Params) (d dc : Int) (r : Rec) (st : St) (h : InvC S p st)
+    (c : RelCtx p d dc r st) (hstat : p.stationary = true) : InvC S p (updStationary p d dc r st) := by
   obtain ⟨hpool, hqueue, _, hevs, hrel, hfirst⟩ := h
   obtain ⟨hmem, htoday, hdc, hfresh⟩ := c
   have hdle : dc + p.rd ≤ st.m.today := by omega
@@ -1104,13 +1105,12 @@ theorem updStationary_invC (p : Params) (d dc : Int) (r : Rec) (st : St) (h : In
       | none => exact ⟨hpool, hqueue, hv _, hevs, hrel, hfirst⟩
       | some pl =>
         obtain ⟨e, hemem, rfl, hs⟩ := qFindLast_some hfl
-        have hpl' := planOK_upd (hqueue e hemem) hmem hs hdle
-        have hq' : ∀ (cl : Nat), ∀ x ∈ qInsert { cls := cl, plan := updPlan p e.plan r.rate dc }
+        have hq' : ∀ (cl : Nat), S → ∀ x ∈ qInsert { cls := cl, plan := updPlan p e.plan r.rate dc }
             (qRemove r.site st.sh.queue), PlanOK p st.m.released st.m.today x.plan := by
-          intro cl x hx
+          intro cl hS x hx
           rcases (mem_qInsert _ _ _).mp hx with rfl | hx
-          · exact hpl'
-          · exact hqueue x (mem_qRemove hx).1
+          · exact planOK_upd (hqueue hS e hemem) hmem hs hdle
+          · exact hqueue hS x (mem_qRemove hx).1
         simp only []
         split
         · exact ⟨hpool, by simpa [enqueue] using hq' _, hv _, hevs, hrel, hfirst⟩
@@ -1140,17 +1140,17 @@ theorem updStationary_invC (p : Params) (d dc : Int) (r : Rec) (st : St) (h : In
   · split <;> simp
   · rfl
 
-theorem processRec_invC (p : Params) (d dc : Int) (st : St) (r : Rec) (h : InvC p st)
+theorem processRec_invC {S : Prop} (p : Params) (d dc : Int) (st : St) (r : Rec) (h : InvC S p st)
     (htoday : st.m.today = d) (hdc : dc + p.rd = d) (hr : r.date = dc) :
-    InvC p (processRec p d dc st r) := by
+    InvC S p (processRec p d dc st r) := by
   unfold processRec
   split
   · rename_i hfresh
     have hsub : ∀ x ∈ st.m.released, x ∈ st.m.released ++ [r] := fun x hx => List.mem_append_left _ hx
-    have h' : InvC p { st with m := { st.m with released := st.m.released ++ [r] } } := by
+    have h' : InvC S p { st with m := { st.m with released := st.m.released ++ [r] } } := by
       refine ⟨?_, ?_, h.poolThr, ?_, ?_, h.firstOK⟩
       · intro pl hpl; exact planOK_mono (h.poolOK pl hpl) hsub (Int.le_refl _)
-      · intro e he; exact planOK_mono (h.queueOK e he) hsub (Int.le_refl _)
+      · intro hS e he; exact planOK_mono (h.queueOK hS e he) hsub (Int.le_refl _)
       · intro f hf; exact goodFlag_mono (h.evsOK f hf) hsub (Int.le_refl _)
       · intro rc hrc
         simp only [List.mem_append, List.mem_singleton] at hrc
@@ -1164,9 +1164,9 @@ theorem processRec_invC (p : Params) (d dc : Int) (st : St) (r : Rec) (h : InvC 
     · rename_i hs; exact updMobile_invC _ _ _ _ _ h' c (by simpa using hs)
   · exact h
 
-theorem foldRec_invC (p : Params) (d dc : Int) (rs : List Rec) (st : St) (h : InvC p st)
+theorem foldRec_invC {S : Prop} (p : Params) (d dc : Int) (rs : List Rec) (st : St) (h : InvC S p st)
     (htoday : st.m.today = d) (hdc : dc + p.rd = d) (hr : ∀ r ∈ rs, r.date = dc) :
-    InvC p (rs.foldl (processRec p d dc) st) ∧ (rs.foldl (processRec p d dc) st).m.today = d := by
+    InvC S p (rs.foldl (processRec p d dc) st) ∧ (rs.foldl (processRec p d dc) st).m.today = d := by
   induction rs generalizing st with
   | nil => exact ⟨h, htoday⟩
   | cons r t ih =>
@@ -1174,15 +1174,15 @@ theorem foldRec_invC (p : Params) (d dc : Int) (rs : List Rec) (st : St) (h : In
       (fun x hx => hr x (by simp [hx]))
 
 /-- loop invariant of the flagging loop for invariant C -/
-structure LoopC (p : Params) (d first : Int) (st : St) (cs : List Plan) : Prop where
-  inv : InvC p st
+structure LoopC (S : Prop) (p : Params) (d first : Int) (st : St) (cs : List Plan) : Prop where
+  inv : InvC S p st
   today : st.m.today = d
   csOK : ∀ pl ∈ cs, PlanOK p st.m.released st.m.today pl
   csThr : p.stationary = false → ∀ pl ∈ cs, p.thr ≤ pl.rate
   due : first + p.delay ≤ d
 
-theorem flagOne_loopC (p : Params) (d first : Int) (st : St) (pl : Plan) (cs : List Plan)
-    (h : LoopC p d first st (pl :: cs)) : LoopC p d first (flagOne p d first st pl) cs := by
+theorem flagOne_loopC {S : Prop} (p : Params) (d first : Int) (st : St) (pl : Plan) (cs : List Plan)
+    (h : LoopC S p d first st (pl :: cs)) : LoopC S p d first (flagOne p d first st pl) cs := by
   obtain ⟨⟨hpool, hqueue, hthr, hevs, hrel, hfirst⟩, htoday, hcs, hcthr, hdue⟩ := h
   have hpl := hcs pl (by simp)
   unfold flagOne
@@ -1198,11 +1198,11 @@ theorem flagOne_loopC (p : Params) (d first : Int) (st : St) (pl : Plan) (cs : L
   · rename_i hc
     refine ⟨⟨hpool, ?_, hthr, ?_, hrel, hfirst⟩, htoday, fun x hx => hcs x (by simp [hx]),
       fun hs x hx => hcthr hs x (by simp [hx]), hdue⟩
-    · intro e he
+    · intro hS e he
       simp only [flagSite, enqueue, mem_qInsert] at he
       rcases he with rfl | he
       · exact hpl
-      · exact hqueue e he
+      · exact hqueue hS e he
     · intro f hf
       simp only [flagSite, List.mem_append, List.mem_singleton] at hf
       rcases hf with hf | rfl
@@ -1233,14 +1233,14 @@ theorem flagOne_loopC (p : Params) (d first : Int) (st : St) (pl : Plan) (cs : L
               simp [followLong] at h2
               exact ⟨h2.1.1, h2.1.2, h2.2⟩
 
-theorem foldFlag_loopC (p : Params) (d first : Int) (cs : List Plan) (st : St)
-    (h : LoopC p d first st cs) : LoopC p d first (cs.foldl (flagOne p d first) st) [] := by
+theorem foldFlag_loopC {S : Prop} (p : Params) (d first : Int) (cs : List Plan) (st : St)
+    (h : LoopC S p d first st cs) : LoopC S p d first (cs.foldl (flagOne p d first) st) [] := by
   induction cs generalizing st with
   | nil => exact h
   | cons pl t ih => exact ih _ (flagOne_loopC p d first st pl t h)
 
-theorem decideNow_invC (p : Params) (d first : Int) (st : St) (h : InvC p st)
-    (htoday : st.m.today = d) (hdue : first + p.delay ≤ d) : InvC p (decideNow p d first st) := by
+theorem decideNow_invC {S : Prop} (p : Params) (d first : Int) (st : St) (h : InvC S p st)
+    (htoday : st.m.today = d) (hdue : first + p.delay ≤ d) : InvC S p (decideNow p d first st) := by
   unfold decideNow
   simp only []
   apply (foldFlag_loopC p d first _ _ _).inv
@@ -1249,8 +1249,8 @@ theorem decideNow_invC (p : Params) (d first : Int) (st : St) (h : InvC p st)
   · intro pl hpl; exact h.poolOK pl (List.mem_of_mem_take hpl)
   · intro hs pl hpl; exact h.poolThr hs pl (List.mem_of_mem_take hpl)
 
-theorem updateCandidates_invC (p : Params) (d : Int) (st : St) (h : InvC p st)
-    (htoday : st.m.today = d) : InvC p (updateCandidates p d st) := by
+theorem updateCandidates_invC {S : Prop} (p : Params) (d : Int) (st : St) (h : InvC S p st)
+    (htoday : st.m.today = d) : InvC S p (updateCandidates p d st) := by
   unfold updateCandidates
   split
   · split
@@ -1265,16 +1265,16 @@ theorem updateCandidates_invC (p : Params) (d : Int) (st : St) (h : InvC p st)
       exact decideNow_invC p d fc st h htoday (by omega)
     · exact h
 
-theorem dailyUpdate_invC (p : Params) (d : Int) (st : St) (h : InvC p st) (hd : st.m.today ≤ d) :
-    InvC p (dailyUpdate p d st) := by
+theorem dailyUpdate_invC {S : Prop} (p : Params) (d : Int) (st : St) (h : InvC S p st) (hd : st.m.today ≤ d) :
+    InvC S p (dailyUpdate p d st) := by
   unfold dailyUpdate
   simp only []
   have hsub : ∀ x ∈ st.m.released, x ∈ st.m.released := fun x hx => hx
-  have h0 : InvC p { st with m := { st.m with records := st.m.records.filter (fun r => r.date ≠ d - p.rd),
+  have h0 : InvC S p { st with m := { st.m with records := st.m.records.filter (fun r => r.date ≠ d - p.rd),
                                               today := d, nflags := 0 } } := by
     refine ⟨?_, ?_, h.poolThr, ?_, ?_, ?_⟩
     · intro pl hpl; exact planOK_mono (h.poolOK pl hpl) hsub hd
-    · intro e he; exact planOK_mono (h.queueOK e he) hsub hd
+    · intro hS e he; exact planOK_mono (h.queueOK hS e he) hsub hd
     · intro f hf; exact goodFlag_mono (h.evsOK f hf) hsub hd
     · intro rc hrc; have := h.relOK rc hrc; simp only; omega
     · intro fc hfc; have := h.firstOK fc hfc; simp only; omega
@@ -1336,16 +1336,17 @@ theorem mem_dedup_fold (l : List QE) (acc : List Plan) (P : Plan → Prop)
         · exact hl e (by simp)
     · intro x hx; exact hl x (by simp [hx])
 
-theorem followUpDay_invC (p : Params) (cap : Nat) (d : Int) (outs : Nat → Outcome) (st : St)
-    (h : InvC p st) : InvC p { st with sh := followUpDay cap d outs st.sh } := by
+theorem followUpDay_invC {S : Prop} (p : Params) (cap : Nat) (d : Int) (outs : Nat → Outcome) (st : St)
+    (h : InvC S p st) : InvC S p { st with sh := followUpDay cap d outs st.sh } := by
   refine ⟨h.poolOK, ?_, h.poolThr, h.evsOK, h.relOK, h.firstOK⟩
+  intro hS
   unfold followUpDay
   apply foldOutcome_queueOK
-  · intro e he; exact h.queueOK e (List.mem_of_mem_drop he)
+  · intro e he; exact h.queueOK hS e (List.mem_of_mem_drop he)
   · unfold planned dedupPlans
     apply mem_dedup_fold
     · simp
-    · intro e he; exact h.queueOK e (List.mem_of_mem_take he)
+    · intro e he; exact h.queueOK hS e (List.mem_of_mem_take he)
 
 /-- the day of an operation is not before the screening method's last update -/
 def opDated (st : St) : Op1 → Prop
@@ -1376,23 +1377,23 @@ theorem wellDated_cons {p : Params} {cap : Nat} {st : St} {op : Op1} {t : List O
   have h1 := h.1
   cases op <;> simp_all [opDated]
 
-theorem step1_invC (p : Params) (cap : Nat) (st : St) (op : Op1) (h : InvC p st)
-    (hw : opDated st op) : InvC p (step1 p cap st op) := by
+theorem step1_invC {S : Prop} (p : Params) (cap : Nat) (st : St) (op : Op1) (h : InvC S p st)
+    (hw : opDated st op) : InvC S p (step1 p cap st op) := by
   cases op with
   | screen s r d => exact ⟨h.poolOK, h.queueOK, h.poolThr, h.evsOK, h.relOK, h.firstOK⟩
   | update d => exact dailyUpdate_invC p d st h hw
   | fuDay d outs => exact followUpDay_invC p cap d outs st h
   | tag s d => exact ⟨h.poolOK, h.queueOK, h.poolThr, h.evsOK, h.relOK, h.firstOK⟩
 
-theorem foldl_invC (p : Params) (cap : Nat) (ops : List Op1) (st : St) (h : InvC p st)
-    (hw : WellDated p cap st ops) : InvC p (ops.foldl (step1 p cap) st) := by
+theorem foldl_invC {S : Prop} (p : Params) (cap : Nat) (ops : List Op1) (st : St) (h : InvC S p st)
+    (hw : WellDated p cap st ops) : InvC S p (ops.foldl (step1 p cap) st) := by
   induction ops generalizing st with
   | nil => exact h
   | cons op t ih => exact ih _ (step1_invC p cap st op h (wellDated_cons hw).1) (wellDated_cons hw).2
 
-theorem run1_invC (p : Params) (cap : Nat) (ops : List Op1) (hw : WellDated p cap {} ops) :
-    InvC p (run1 p cap ops) :=
-  foldl_invC p cap ops {} (invC_init p) hw
+theorem run1_invC {S : Prop} (p : Params) (cap : Nat) (ops : List Op1) (hw : WellDated p cap {} ops) :
+    InvC S p (run1 p cap ops) :=
+  foldl_invC p cap ops {} (invC_init S p) hw
 
 /-! ### invariant D: the flag counter counts the flag events; visits are not before the reporting delay -/
 
@@ -1537,7 +1538,7 @@ theorem foldOutcome_invD (p : Params) (d : Int) (outs : Nat → Outcome) (cs : L
     exact ⟨h2.1.trans h1.1, h2.2⟩
 
 theorem followUpDay_invD (p : Params) (cap : Nat) (d : Int) (outs : Nat → Outcome) (st : St)
-    (h : InvD p st) (hc : InvC p st) (hd : st.m.today ≤ d) :
+    (h : InvD p st) (hc : InvC True p st) (hd : st.m.today ≤ d) :
     InvD p { st with sh := followUpDay cap d outs st.sh } := by
   unfold followUpDay
   have := foldOutcome_invD p d outs (planned cap st.sh) { st.sh with queue := st.sh.queue.drop cap }
@@ -1546,14 +1547,14 @@ theorem followUpDay_invD (p : Params) (cap : Nat) (d : Int) (outs : Nat → Outc
       apply mem_dedup_fold
       · simp
       · intro e he
-        have := (hc.queueOK e (List.mem_of_mem_take he)).2.2.1
+        have := (hc.queueOK trivial e (List.mem_of_mem_take he)).2.2.1
         omega)
   refine ⟨?_, this.2⟩
   intro s
   simp only [this.1]
   exact h.flagsEq s
 
-theorem step1_invD (p : Params) (cap : Nat) (st : St) (op : Op1) (h : InvD p st) (hc : InvC p st)
+theorem step1_invD (p : Params) (cap : Nat) (st : St) (op : Op1) (h : InvD p st) (hc : InvC True p st)
     (hw : opDated st op) : InvD p (step1 p cap st op) := by
   cases op with
   | screen s r d => exact ⟨h.flagsEq, h.visitsOK⟩
@@ -1561,7 +1562,7 @@ theorem step1_invD (p : Params) (cap : Nat) (st : St) (op : Op1) (h : InvD p st)
   | fuDay d outs => exact followUpDay_invD p cap d outs st h hc hw
   | tag s d => exact ⟨h.flagsEq, h.visitsOK⟩
 
-theorem foldl_invD (p : Params) (cap : Nat) (ops : List Op1) (st : St) (h : InvD p st) (hc : InvC p st)
+theorem foldl_invD (p : Params) (cap : Nat) (ops : List Op1) (st : St) (h : InvD p st) (hc : InvC True p st)
     (hw : WellDated p cap st ops) : InvD p (ops.foldl (step1 p cap) st) := by
   induction ops generalizing st with
   | nil => exact h
@@ -1571,6 +1572,6 @@ theorem foldl_invD (p : Params) (cap : Nat) (ops : List Op1) (st : St) (h : InvD
 
 theorem run1_invD (p : Params) (cap : Nat) (ops : List Op1) (hw : WellDated p cap {} ops) :
     InvD p (run1 p cap ops) :=
-  foldl_invD p cap ops {} ⟨by intro s; rfl, by simp⟩ (invC_init p) hw
+  foldl_invD p cap ops {} ⟨by intro s; rfl, by simp⟩ (invC_init True p) hw
 
 end LdarModel.FollowUp
